@@ -3,7 +3,7 @@
    Only statements; proofs are in Proofs/IlpP10.v. *)
 From Coq Require Import ZArith Bool List.
 Import ListNotations.
-From Verif Require Import Model.Val Gen.Src_Ilp Model.IlpModel Proofs.IlpP Proofs.IlpP11 Proofs.IlpP10 Proofs.IlpP14 Proofs.IlpP14s.
+From Verif Require Import Model.Val Gen.Src_Ilp Model.IlpModel Proofs.IlpP Proofs.IlpP11 Proofs.IlpP10 Proofs.IlpP14 Proofs.IlpP14s Proofs.IlpPM.
 Open Scope Z_scope.
 
 (* exactly one decision per decided (offered or earlier SCHEDULED, not RUNNING) task, in order, no duplicates *)
@@ -55,6 +55,17 @@ Theorem C10_ilp_nonvacuous : exists I a, sat (gen_ilp I) a /\ nodup_ids I /\ rt_
   exists w tau, In w (wenum I) /\ usage_a I a w 0 tau = 1.
 Proof. exact C10_nonvacuous. Qed.
 Print Assumptions C10_ilp_nonvacuous.
+
+(* the monitor applied to the implementation's answers is the decidable form of the plan-level property, and its
+   capacity part (start instants only) bounds the usage at every instant *)
+Theorem C10_ilp_monitor_spec : forall I p, c10_check I p = true <-> C10_plan_ok I p.
+Proof. exact c10_check_spec. Qed.
+Print Assumptions C10_ilp_monitor_spec.
+Theorem C10_ilp_monitor_every_instant : forall I p, req_nonneg I -> capacity_ho_check I p = true ->
+  forall wi rq tau, In wi (wenum I) -> In rq (w_res (snd wi)) -> 0 <= snd rq ->
+  usage_ho I p (fst wi) (fst rq) tau <= snd rq.
+Proof. exact capacity_ho_every_instant. Qed.
+Print Assumptions C10_ilp_monitor_every_instant.
 
 (* FINDING ILP-H1: "returns normally" is false of the code as written — schedule() raises AttributeError
    when a SCHEDULED task has a strategy that does not fit on some worker (ilp_scheduler.py:248-255) *)
